@@ -555,3 +555,99 @@ Definition spec_ok (sk : skind) (dk : dkind) (d : deposit) (impl : res proposal)
   if wf sk dk d then
     match impl with Ok p => proposal_eqb p (spec_proposal sk dk d) | _ => false end
   else true.
+
+(* ================================================================================================================
+   Sequences: the relayer's long-lived objects (one Listener / ETHDepositHandler per source chain, one message
+   handler per destination) handle many deposits, the same deposit again on a retry, whole batches before any
+   proposal is executed.  The model has NO state: the relay of a step is the per-deposit [relay] of that step's
+   deposit, whatever happened before; a prepared proposal is a value and stays what it was. *)
+Definition item := (skind * dkind * deposit)%type.
+
+(* one step of a history: pool index of the deposit that is handled, and whether the environment fails the
+   handler lookup / the fetch while it is handled (scripted fault: no proposal is owed for that step) *)
+Definition step := (nat * bool)%type.
+
+Definition step_relay (pool : list item) (s : step) : res proposal :=
+  match nth_error pool (fst s) with
+  | Some (sk, dk, d) => if snd s then Err else relay sk dk d
+  | None => Err
+  end.
+
+Definition seq_relay (pool : list item) (steps : list step) : list (res proposal) := map (step_relay pool) steps.
+
+(* what was observed for one step: every reading of the proposal prepared for it (right after it was built,
+   when its batch is written, at the end of the history) *)
+Record occ := mkOcc { o_dep : nat; o_fail : bool; o_reads : list (res proposal) }.
+
+Definition is_err (r : res proposal) : bool := match r with Err => true | _ => false end.
+
+(* the specification of one reading = the per-deposit judge; a step whose lookup was made to fail may also
+   have produced nothing *)
+Definition read_ok (sk : skind) (dk : dkind) (d : deposit) (f : bool) (r : res proposal) : bool :=
+  (f && is_err r) || spec_ok sk dk d r.
+
+Definition occ_ok (pool : list item) (o : occ) : bool :=
+  match nth_error pool (o_dep o) with
+  | Some (sk, dk, d) => forallb (read_ok sk dk d (o_fail o)) (o_reads o)
+  | None => false
+  end.
+
+(* the judge of a history: pointwise *)
+Definition seq_ok (pool : list item) (occs : list occ) : bool := forallb (occ_ok pool) occs.
+
+(* the same predicate, evaluated per pool deposit so that wf / the reference are computed once per deposit *)
+Definition reads_of (occs : list occ) (i : nat) : list (bool * res proposal) :=
+  flat_map (fun o => if Nat.eqb (o_dep o) i then map (pair (o_fail o)) (o_reads o) else []) occs.
+
+Definition item_ok_fast (it : item) (rs : list (bool * res proposal)) : bool :=
+  match rs with
+  | [] => true
+  | _ =>
+    let '(sk, dk, d) := it in
+    if wf sk dk d then
+      let sp := spec_proposal sk dk d in
+      forallb (fun fr => match snd fr with Ok p => proposal_eqb p sp | Err => fst fr | _ => false end) rs
+    else true
+  end.
+
+Fixpoint items_ok_fast (pool : list item) (occs : list occ) (i : nat) : bool :=
+  match pool with
+  | [] => true
+  | it :: rest => item_ok_fast it (reads_of occs i) && items_ok_fast rest occs (S i)
+  end.
+
+Definition seq_ok_fast (pool : list item) (occs : list occ) : bool :=
+  forallb (fun o => Nat.ltb (o_dep o) (length pool)) occs && items_ok_fast pool occs 0.
+
+(* correspondence of one reading with the model (used by the run only).  In a history the calldata reaches the
+   EVM handlers as the ABI decoder's sub-slice of the log data (capacity beyond its length), so a slice bound
+   between len and cap does not panic there: Unspec is matched by anything *)
+Definition agree_res (m : res proposal) (f : bool) (r : res proposal) : bool :=
+  (f && is_err r) ||
+  match m, r with
+  | Unspec, _ => true
+  | Ok p, Ok q => proposal_eqb p q
+  | Err, Err => true
+  | Panic, Panic => true
+  | _, _ => false
+  end.
+
+Fixpoint items_agree (pool : list item) (occs : list occ) (i : nat) : bool :=
+  match pool with
+  | [] => true
+  | (sk, dk, d) :: rest =>
+      (match reads_of occs i with
+       | [] => true
+       | rs => let m := relay sk dk d in forallb (fun fr => agree_res m (fst fr) (snd fr)) rs
+       end) && items_agree rest occs (S i)
+  end.
+
+Definition seq_agree (pool : list item) (occs : list occ) : bool :=
+  forallb (fun o => Nat.ltb (o_dep o) (length pool)) occs && items_agree pool occs 0.
+
+(* the model's observation of a history: every step read k times *)
+Definition model_occ (pool : list item) (sk : step * nat) : occ :=
+  mkOcc (fst (fst sk)) (snd (fst sk)) (repeat (step_relay pool (fst sk)) (snd sk)).
+
+Definition steps_wf (pool : list item) (steps : list (step * nat)) : bool :=
+  forallb (fun sk => Nat.ltb (fst (fst sk)) (length pool)) steps.
